@@ -63,6 +63,16 @@ func c03Gen(r *sim.Rand, tier string) *sim.Case {
 	cs.Knobs["vlanmask"] = int64(r.N(27))
 	cs.Knobs["uptime_s"] = int64(sim.Pick(r, 0, 1, 3600, 86400*30, 86400*365*3))
 	cs.Knobs["skipmax"] = int64(sim.Pick(r, 1, 4))
+	// failing system calls: one of the cache maps holds a single entry, so the control plane's
+	// insert for every further subscriber fails (E2BIG): 1 MAC map, 2 VLAN map, 3 circuit-id map
+	cs.Knobs["mapcap"] = int64(r.Weighted(5, 2, 1, 1))
+	if cs.Knobs["mapcap"] != 0 {
+		// the fault needs a second subscriber whose insert is refused; relayed ones also have circuit-id entries
+		cs.Knobs["clients"] = int64(r.Range(2, 3))
+		if r.P(60) {
+			cs.Knobs["relaymask"] = int64(r.Range(1, 7))
+		}
+	}
 	n := r.Range(4, 14)
 	if tier == "thorough" {
 		n = r.Range(4, 30)
@@ -185,10 +195,16 @@ func c03Run(c *sim.Ctx) {
 	}{{cebpf.Hash, 8, sz.PoolAssignment}, {cebpf.Hash, sz.VLANKey, sz.PoolAssignment}, {cebpf.Hash, 4, sz.IPPool}, {cebpf.Array, 4, sz.ServerConfig},
 		{cebpf.Array, 4, sz.Stats}, {cebpf.Hash, 8, 8}, {cebpf.Hash, sz.CircuitIDKey, sz.PoolAssignment}}
 	var fds [7]int
+	capped := -1
 	for i, sp := range specs {
 		n := uint32(64)
 		if sp.t == cebpf.Array {
 			n = 1
+		}
+		if mc := cs.Knob("mapcap", 0); (mc == 1 && i == 0) || (mc == 2 && i == 1) || (mc == 3 && i == 6) {
+			n = 1
+			capped = i
+			c.S.Probe("kmap_capacity_1_configured")
 		}
 		m, err := cebpf.NewMap(&cebpf.MapSpec{Name: fmt.Sprintf("vf_x%d", i), Type: sp.t, KeySize: uint32(sp.k), ValueSize: uint32(sp.v), MaxEntries: n})
 		if err != nil {
@@ -418,6 +434,7 @@ func c03Run(c *sim.Ctx) {
 		return false, true
 	}
 
+	insertFailed := false
 	for i, op := range cs.Ops {
 		c.OpIdx = i
 		if c.Failed() {
@@ -502,6 +519,19 @@ func c03Run(c *sim.Ctx) {
 		if op.K == "release" || op.K == "decline" {
 			cl.bound, cl.offered = nil, nil
 		}
+		if capped >= 0 && !insertFailed {
+			// more acknowledged clients than the capped map can hold: an insert was refused (E2BIG)
+			nb := 0
+			for _, x := range cls {
+				if x.bound != nil {
+					nb++
+				}
+			}
+			if nb > 1 {
+				insertFailed = true
+				c.S.Fault("kmap.insert-refused-map-full")
+			}
+		}
 		c.State(uint64(w.tx)<<16 | uint64(w.pass))
 	}
 	c.NonTrivial = w.tx > 0 && w.pass > 0
@@ -518,8 +548,8 @@ func init() {
 		Real: []string{"bpf/dhcp_fastpath.c compiled natively with clang against shim helper headers", "ebpf.Loader map writers over real kernel maps created with the C-declared key/value sizes",
 			"dhcp.Server slow path (handlers, lease cleanup loop) + dhcp.Pool/PoolManager.AddPool", "the kernel's map implementation"},
 		Stub:         []string{"XDP attach, driver and NIC (frames are handed to the program directly; XDP_TX output is the reply)", "bpf_ktime_get_ns (kernel uptime = configured boot offset + virtual time)", "bpf_xdp_adjust_tail (moves data_end inside the packet arena)"},
-		Rule:         "cases: 4-30 DISCOVER/REQUEST/RELEASE/DECLINE frames (untagged/802.1Q/QinQ, IHL 5/6, three padding classes, three option layouts, direct or relayed with option 82) from 1-3 clients through the kernel node into the slow path, sleeps across T1/expiry/cleanup; configurations: prefix 20-30 (larger pools are too slow to materialise per run), 0-2 DNS servers, lease 1 s-1 week, server id set/unset, kernel uptime 0-3 years; non-trivial = >=3 frames and both verdicts (TX and PASS) occurred; distinct = distinct case hash",
-		QuickRuns:    4000,
+		Rule:         "cases: 4-30 DISCOVER/REQUEST/RELEASE/DECLINE frames (untagged/802.1Q/QinQ, IHL 5/6, three padding classes, three option layouts, direct or relayed with option 82) from 1-3 clients through the kernel node into the slow path, sleeps across T1/expiry/cleanup; configurations: prefix 20-30 (larger pools are too slow to materialise per run), 0-2 DNS servers, lease 1 s-1 week, server id set/unset, kernel uptime 0-3 years, and in 4 of 9 runs one cache map (MAC, VLAN or circuit-id) created with a single slot so that further inserts are refused by the kernel (E2BIG); non-trivial = a refused insert occurred, or = >=3 frames and both verdicts (TX and PASS) occurred; distinct = distinct case hash",
+		QuickRuns:    10000,
 		ThoroughRuns: 300000,
 		Assumptions: []string{"native code generation instead of the BPF back end", "'expired in userspace' = the lease has left the userspace lease table (after the cleanup that follows expiry)",
 			"agreement is judged on requests a conforming client sends (REQUEST for the address it was offered or holds)"},
